@@ -333,9 +333,13 @@ _RULE_EXTRA = {
     "C07": "; 1 in 5 extra tables header-only; 1 table in 3 has a block (a middle one or the last) whose final row ends with an empty cell; commit times in 13 zones (whole-hour and fractional offsets on both sides of UTC); 1 case in 4 negotiated: histories of 2..8 commits with more merges, the destination asks for 1..2 commits it lacks and reports its tips (sometimes more, sometimes an unknown hash, in 1..2 rounds, depth 0..3, optionally acknowledging tables it has), the real ClosedSetsFinder picks the commit list, tables and commons that ObjectSender then sends; the transfer must succeed and leave every ancestor of the wants (tables within the depth) and nothing outside the wanted history; 1 case in 4 (and every other negotiated one): every packfile of the transfer is also delivered cut short to a copy of the destination as it was before that packfile (inside the file header, at every object boundary, at every byte of objects up to 256 bytes, at 16 bytes from either end plus 16 drawn in between of larger ones; at most about 400 cuts per case): a cut on an object boundary is accepted, any other is refused, and the copy holds exactly the complete objects before the cut, identical to the source's",
     "C08": "; 1 case in 4: the refs live in rotating namespaces (heads, tags, remote-tracking, transaction refs txs/<id>/<branch>, custom); 1 case in 5: the session continues on the same finder after a refused request (a round whose wants include a commit no ref reaches, an unknown hash or a commit without its table, alone or with a legitimate want, placed before / between / after the generated rounds): refused rounds change nothing, everything sent must be justified by the accepted wants alone",
     "C09": "; every fourth case index adds one case of a kind chosen by the index (tag variant=…): multi-depth (3..4 heads forking from a shared trunk with 0..4 own commits, cross merges, `fetch --depth d` with d around the distance to the shared part), sender-fault (the remote's store fails its k-th read of a table / block / commit during a fetch, or a local table object is cut short before a push; the retry is judged too), "
-           "second-remote (full or shallow clone, origin removed or kept, pushes to a second remote that is empty or holds a prefix; a crash of the command counts as a failed push), merge-shallow (after `fetch --depth 1|2`, `wrgl merge main <origin/main~j | sum>` in every mode: a moved branch head must have its table)",
+           "second-remote (full or shallow clone, origin removed or kept, pushes to a second remote that is empty or holds a prefix; a crash of the command counts as a failed push), merge-shallow (after `fetch --depth 1|2`, `wrgl merge main <origin/main~j | sum>` in every mode: a moved branch head must have its table)"
+           "; case indices 1, 5, 9, ... add one case of a second list of kinds: known-blocks (a commit whose table is made only of blocks of an earlier 2..3-block table - its first or last blocks - or has no rows, or is one row short of a block; fetch into an empty repository or a clone, push from a clone), "
+           "colliding-dsts (two refspecs mapping different remote refs - a branch and a tag of one name on histories of their own, or two branches - onto one destination, as globs or explicitly; the destination holds one of its sources with its whole history), "
+           "boundary-cut (a packfile response ends exactly between two objects with io.ErrUnexpectedEOF or a stream reset; the remote's maximum packfile size is set so that a packfile ends after the first sent commit's table / after the commit / anywhere)",
     "C10": "; every fourth case index adds one case of a kind chosen by the index (tag variant=…): overlap-specs (2..3 refspecs over the same remote heads into remotes/origin/*, a custom ref and remotes/mirror/*, every pattern of '+' in command-line order, after the remote moved forward / sideways / back; each destination is judged by the '+' of its own refspec), "
-           "ff-config (merge.fastForward unset / never / only x no flag / --ff / --no-ff / --ff-only for merge and pull; the flag wins), merge-shallow (merge of a named commit of a depth-limited fetch: refused and reported when its table is absent, exact fast-forward otherwise)",
+           "ff-config (merge.fastForward unset / never / only x no flag / --ff / --no-ff / --ff-only for merge and pull; the flag wins), merge-shallow (merge of a named commit of a depth-limited fetch: refused and reported when its table is absent, exact fast-forward otherwise)"
+           "; case indices 1, 9, 17, ... add a listing-fault case (the first 1..2 listings of the remote's refs answer 500/502/503 before a push - which retries - or a fetch; diverged / ahead / unrelated / behind / equal branch, a tag pushed along that is new or clobbers the remote's); for every push the ref updates the client REQUESTED are recorded by the reference server: each must be one the gate accepts against the remote's true value and name that value as old",
     "C11": "; walks from 3..5 start points with a repeated one; 2 per DAG: CommitsQueue.RemoveAncestors(1..2 commits) on a frontier started from 1..3 commits and advanced by 0..2 pops, judged by reachability (exactly the ancestors leave, the rest keep their order)",
     "C12": "; 1 in 20: a repository directory (badger + SQLite files) with 1..3 transactions (in progress or committed, begun well before or after the time-to-live: default, 24h or 2h) staging 1..2 refs each, `wrgl gc` or `wrgl prune` through the command line, judged with the refs that exist afterwards as roots; 1 in 20: the SQLite ref store fails with a disk I/O error after 0..5 rows of a scan during prune (nothing reachable may go, success must mean complete), then a healthy re-run; 1 in 40: 30..60 commits over 25..40 tables on a real badger store",
     "C13": "; every write position also as a single injected write error (the operation continues): consistency, error reported or harmless, re-run; every crash point also as a recovery history (crash, a complete prune of the reopened repository, the operation again: same refs, every commit they reach and its table present, consistent); 1 in 4 cases: the fetch command's Fetch (default refspec) against the reference server, remote 1..3 commits ahead on main, optional second branch, 0..2 tags outside the refspec, 1..n packfiles; 1 in 4: one of the four kinds in a repository that also holds an unreachable commit; 1 in 12: `transaction commit` of an open transaction staging 1..3 branches (existing and new), staged as `wrgl commit --txid` does (write kinds and pairing from the extracted loop order; each interrupted run judged on its own branch order)",
